@@ -131,7 +131,7 @@ pub fn models(id: &str, tier: &str) -> Vec<HistoryModel> {
         depth_initial: dg,
         depth_gallery: dg,
         alphabet: alphabet.clone(),
-        seeds: vec!["S12", "S13"],
+        seeds: vec!["S12", "S13", "S14"],
         all_proposers: false,
         max_deviations: 0,
     };
@@ -174,7 +174,7 @@ pub fn deviation_models(id: &str, tier: &str) -> Vec<HistoryModel> {
 pub fn meta(id: &str, tier: &str) -> Meta {
     let ms = models(id, tier);
     let bounds = bounds_json(&[
-        ("identities", json!("5 (9 in the runs from the eight-member seeds S12, S13)")),
+        ("identities", json!("5 (9 in the runs from the eight-member seeds S12, S13, S14)")),
         (
             "runs",
             json!(ms
